@@ -77,6 +77,17 @@ fn rename_var(g: &G, from: u32, to: u32) -> G {
 /// Tier T1: one constraint, every operand pattern (with aliasing and constants), every domain
 /// assignment, every statement order.
 pub fn tier1(quick: bool) -> Vec<Program> {
+    let mut out = vec![];
+    for base in tier1_base(quick) {
+        for perm in permutations(&base.body) {
+            out.push(Program { nq: base.nq, body: perm });
+        }
+    }
+    out
+}
+
+/// One statement order per T1 program (domains first, then the constraint).
+pub fn tier1_base(quick: bool) -> Vec<Program> {
     let doms = domains(quick);
     let consts: Vec<T> = vec![T::I(-1), T::I(0), T::I(2)];
     let vars: Vec<T> = vec![T::V(0), T::V(1), T::V(2)];
@@ -118,9 +129,7 @@ pub fn tier1(quick: bool) -> Vec<Program> {
         for da in crate::e4::product(&doms, nv as usize) {
             let mut stmts: Vec<G> = (0..nv).map(|i| G::InFd(vec![T::V(i)], da[i as usize].clone())).collect();
             stmts.push(c.clone());
-            for perm in permutations(&stmts) {
-                out.push(Program { nq: nv, body: perm });
-            }
+            out.push(Program { nq: nv, body: stmts });
         }
     }
     out
